@@ -23,7 +23,7 @@ COMPONENTS = {"real": ["ECAgent.Core.Model.complete/is_running/__bool__/execute"
               "stub": ["System.execute bodies are harness recorders; the completer calls model.complete() when scripted"]}
 PROBES = ["completer_first", "completer_middle", "completer_last", "complete_outside", "complete_at_t0",
           "multi_step_spans_completion", "throw_error_raised", "add_after_complete", "remove_after_complete",
-          "due_system_skipped", "completer_raises_after_complete", "completed_by_member_of_a_private_system_manager", "request_from_inside_the_completing_timestep", "system_bound_to_another_model", "falsy_systems", "systems_returning_values_from_execute",
+          "due_system_skipped", "completer_raises_after_complete", "completed_by_member_of_a_private_system_manager", "request_from_inside_the_completing_timestep", "raising_request_inside_an_iterator", "system_bound_to_another_model", "falsy_systems", "systems_returning_values_from_execute",
           "logging_custom_logger", "logging_level_warning", "logging_disable_info", "logging_disable_critical", "logging_level_debug"]
 TECHNIQUE = "deterministic simulation: complete() injected as a cancellation at every schedule point, then a seeded request tail with a 'nothing moves' oracle"
 LEVEL_TEXT = ("Seeded search over the completion point (queue position x timestep, inside multi-step requests, from outside) "
@@ -66,7 +66,7 @@ def generate(rng, tier):
         elif r < 0.52:
             tail.append({"op": "bare"})
         elif r < 0.66:
-            tail.append({"op": "bare_throw"})
+            tail.append({"op": "bare_throw", "via": rng.choice([None, None, None, "map", "generator"])})
         elif r < 0.76:
             spec = {"id": f"n{fresh}", "prio": gen_prio(rng)}
             fresh += 1
@@ -316,7 +316,18 @@ def _execute(sc, ctx):
         elif kind == "bare":
             ctx.expect_ok("execute_systems-after-complete", sm.execute_systems)
         elif kind == "bare_throw":
-            ctx.expect_raises("throw_error", ModelCompleteError, sm.execute_systems, throw_error=True)
+            via = op.get("via")
+            if via == "map":
+                # the request sits inside a function driven by map(): the documented error must come out of it as itself
+                ctx.expect_raises("throw_error", ModelCompleteError, lambda: list(map(lambda _: sm.execute_systems(throw_error=True), [0])))
+                ctx.probe("raising_request_inside_an_iterator")
+            elif via == "generator":
+                def driver():
+                    yield sm.execute_systems(throw_error=True)
+                ctx.expect_raises("throw_error", ModelCompleteError, lambda: next(driver()))
+                ctx.probe("raising_request_inside_an_iterator")
+            else:
+                ctx.expect_raises("throw_error", ModelCompleteError, sm.execute_systems, throw_error=True)
             ctx.probe("throw_error_raised")
         elif kind == "add":
             spec = spec_defaults(op["sys"])
